@@ -27,6 +27,51 @@ PROPS = {
     },
 }
 
+SEQ_RULE = ("one evaluation = one seeded simulated run of a generated single-client operation sequence (all NFSv3 procedures the profile enables, "
+            "symbolic handles incl. stale and never-issued ones, boundary names/offsets/sizes relative to the limits the server announces) against the real "
+            "server under a seeded schedule of its background threads (logger, installer, shrinker; starvation profiles), every reply checked by the reference model; ")
+
+def seq(level, text, rule_extra, quick=60, thorough=900, measure=None, **kw):
+    d = {"level": level, "level_text": text, "budget": {"quick": quick, "thorough": thorough},
+         "rule": SEQ_RULE + rule_extra + " distinct = distinct execution fingerprint (schedule decisions + disk trace + replies); non-trivial = more than 3 operations executed",
+         "state_measure": measure or "content hash of distinct crash images recovered / final reference states",
+         "real": REAL, "stubs": STUBS, "assumptions": COMMON_ASSUME}
+    d.update(kw)
+    return d
+
+PROPS.update({
+    "C01": seq("fault_enumeration",
+               "seeded search over operation sequences and background-thread schedules; inside every sampled run every crash point of the disk trace is enumerated (prefix mode), plus sampled subsets of un-barriered writes and nested crashes during recovery; each image is recovered by the real server and must equal a prefix state that includes every operation acknowledged with stable semantics (tree, sizes, link targets, every byte, handles), pass fsck and conservation, and keep serving",
+               "then recovery from every crash point of its disk trace (crash-prefix refinement P, fsck F, conservation A, continuation workload).", quick=75),
+    "C02": seq("exploration",
+               "seeded search over single-client histories (50-300 operations, all procedures, stale/garbage handles, illegal names, block/indirection boundaries, restarts, unstable on/off, small inode caches); every reply and periodic full dumps are compared with the reference file system, restarts with restart-equivalence",
+               "full tree/data dumps vs the model every few operations and at the end, restart equivalence at every restart."),
+    "C04": seq("fault_enumeration",
+               "structural fsck (pointers in the data region, single ownership, bitmap agreement both ways, tree rooted at inode 1 with unique well-formed names and correct '.'/'..', sizes vs blocks) after every operation of sampled histories and on the recovered logical disk of every crash image of those histories, including images taken while a large file is being freed",
+               "fsck after every operation and on every recovered crash image.", quick=75),
+    "C05": seq("exploration",
+               "build-then-delete histories (all size classes, sparse files, holes filled by reads, nested directories, renames over targets, failed and aborted operations with injected allocation failures, large files freed by the background shrinker); at quiescent points bitmap-in-use = allocator-in-use = reachable + held by half-freed inodes; after delete-all free counts return to the post-format values",
+               "conservation at quiescent points and the delete-everything check."),
+    "C07": seq("fault_enumeration",
+               "seeded search over stability mixes (UNSTABLE/DATA_SYNC/FILE_SYNC writes to several files, COMMITs, metadata operations, restarts, unstable option on/off); every crash point of each trace is recovered and must equal a prefix state that includes everything acknowledged as stable (so unstable loss is a suffix only); committed level never weaker than requested; write verifier constant within and different across server instances",
+               "then recovery from every crash point; 'stable' is defined by the replies (committed >= DATA_SYNC, successful COMMIT, any later operation that commits with wait).", quick=75),
+    "C08": seq("exploration",
+               "seeded search over reuse-heavy histories (create/remove cycles so that inode numbers are recycled, restarts); every handle of a removed object is presented to every procedure and every handle position (object, directory, RENAME source and target directory) and must fail as stale without effect; handle <-> object must stay a bijection",
+               "plus the dead-handle sweep: every removed object's handle x 20 procedure/position combinations."),
+    "C09": seq("exploration",
+               "seeded search over histories on nearly-full disks (data region 8-200 blocks) and with injected allocation failures, rich in requests that fail late (over-long rename targets, creates without space, writes that run out after allocating an index block); around every failing mutating request: observable snapshot (all attributes, listings) unchanged, allocator counts not lower, caches equal to the disk; then the reference model for all later operations and restart equivalence",
+               "plus the audit around every failed mutating operation."),
+    "C10": seq("exploration",
+               "at quiescent, flushed points of sampled histories (incl. >100 live objects, tiny inode caches, failed operations): complete observable snapshot (all attribute fields incl. time stamps, listings, link targets) equal before/after a clean restart and for a second server recovered from the disk image at that instant; every cached inode and cached directory entry equal to the decoded logical disk; allocator counts equal to the bitmaps",
+               "plus restart equivalence (clean restart and image recovery) and cache/disk coherence at quiescent points."),
+    "C12": seq("fault_enumeration",
+               "block-recycling histories on small disks (pattern fill, delete, shrink to aligned and unaligned sizes, sparse re-creation, partial-block writes, extensions) with byte-exact read-back against the model (zeroes where nothing was written; every byte carries its write's pattern id, so foreign bytes are attributable); every crash point of half of the histories is recovered and read back the same way",
+               "byte-exact read-back incl. hole samples; crash enumeration on every second history.", quick=75),
+    "C19": seq("exploration",
+               "boundary-biased histories around the limits read from the run's own FSINFO/PATHCONF replies: names of length name_max-1, name_max, name_max+1 and far beyond, writes of wtmax-1/wtmax/wtmax+1 bytes, offsets and sizes at maxfilesize-1/maxfilesize/maxfilesize+1 and far beyond; at or below the limit the request must be accepted and behave normally (reference model, restart), above it must be refused with no effect",
+               "values are generated relative to the announced limits (limit-1, limit, limit+1, far beyond)."),
+})
+
 NOT_APPLICABLE = {
     "C16": "pure function of its input (XDR encode/decode round-trip and a static dispatch table): no schedule, clock, fault or interleaving for a simulator to decide; see DESIGN.md section 6",
 }
